@@ -161,7 +161,7 @@ func (d *DeadlineChan[T]) Recv() (b T, err error) {
 			return
 		default:
 		}
-		err = d.deadline.Err()
+		err = d.recvErr(&b)
 		return
 	default:
 		select {
@@ -173,12 +173,27 @@ func (d *DeadlineChan[T]) Recv() (b T, err error) {
 				return
 			default:
 			}
-			err = d.deadline.Err()
+			err = d.recvErr(&b)
 			return
 		case b = <-d.C:
 			return
 		}
 	}
+}
+
+// recvErr reads the error a canceled Recv reports. The error is read after
+// the cancellation was observed, so a Close in between turns it into io.EOF:
+// end-of-stream must then not overtake an item that was queued before Close.
+func (d *DeadlineChan[T]) recvErr(b *T) error {
+	err := d.deadline.Err()
+	if err == io.EOF {
+		select {
+		case *b = <-d.C:
+			return nil
+		default:
+		}
+	}
+	return err
 }
 
 // Send send one byte slice on the underlying channel
